@@ -4,7 +4,7 @@ import re
 from .. import obs as O
 from .. import sgr_model as M
 from .common import (Contract, ansi_values, history, run_cases, tier_sizes, is_ansi, safe_obs, settings_texts,
-                     esc_seam_values)
+                     esc_seam_values, small_scope_values, small_scope_on)
 from ..gen import gen_format_spec
 
 PROP = 'C12'
@@ -25,38 +25,35 @@ CASES = {'quick': 800, 'thorough': 10800}
 WEIGHTS = {'assign_str': 1.5, 'convert': 2, 'apply': 12, 'pad': 10, 'format': 8, 'to_str': 2, 'getitem': 2, 'add': 2, 'remove': 2, 'query': 0.1,
            'find_settings': 0.1, 'settings_at': 0.1}
 
-SPEC_RE = re.compile(r'(?:(?P<fill>.)?(?P<flag>[+-])?(?P<align>[<>^]))?(?P<width>[0-9]*)\Z', re.S)
+
+
+SF_RE = re.compile(r'(?:(.)?([+-])?([<>^]))?([0-9]*)\Z', re.S)
 
 
 def parse_spec(spec):
     """own recogniser of [fill][+|-][<|>|^][width][:ansi]; returns dict or None (outside the grammar).
 
-    fill is present iff an alignment character follows it (possibly after the flag) - Python's own reading, so
-    '+<5' has fill '+', and a lone '+' or '-' before the alignment character is the flag."""
-    # split off the ansi part: the first ':' that is not the fill character itself
-    sf, ansi = spec, None
-    m = re.match(r'(.?[-+]?[<>^]?[0-9]*)(:.*)?\Z', spec, re.S)
-    if m:
-        sf = m.group(1)
-        ansi = m.group(2)[1:] if m.group(2) is not None else None
-    else:
-        return None
-    if sf == '':
-        return {'fill': ' ', 'flag': '', 'align': '<', 'width': None, 'ansi': ansi, 'sf': sf}
-    # [fill][flag]align width
-    mm = re.match(r'(?:(.)?([+-])?([<>^]))?([0-9]*)\Z', sf, re.S)
-    if not mm:
-        return None
-    fill, flag, align, width = mm.groups()
-    if align is None:
-        if fill or flag:
-            return None
-    # ambiguity: '+<5' -> regex may read fill=None flag='+'; Python reads fill '+'.  The library's own grammar
-    # (.?[+-]?[<>^]) reads '.?' greedily, i.e. fill='+', no flag.  Both readings give fill '+': resolve that way.
-    if align is not None and fill is None and flag is not None:
-        fill, flag = flag, None
-    return {'fill': fill if fill is not None else ' ', 'flag': flag or '', 'align': align or '<',
-            'width': int(width) if width else None, 'ansi': ansi, 'sf': sf, 'zero_led': len(width) > 1 and width[0] == '0'}
+    Written from the statement, not from the library's regexes: a fill character (and the flag) is present iff an
+    alignment character follows - Python's own reading, so '+<5' has fill '+', ':<5' has fill ':' and ':31' is an
+    empty string format followed by the ansi part '31'.  Where a ':' could either belong to the string format or
+    start the ansi part, the longest valid string format wins (':<5:red' -> ':<5' + 'red')."""
+    cuts = [None] + [i for i, ch in enumerate(spec) if ch == ':']
+    best = None
+    for cut in cuts:
+        sf = spec if cut is None else spec[:cut]
+        ansi = None if cut is None else spec[cut + 1:]
+        mm = SF_RE.match(sf)
+        if not mm:
+            continue
+        fill, flag, align, width = mm.groups()
+        if align is not None and fill is None and flag is not None:
+            fill, flag = flag, None         # '+<5': the '+' is the fill character
+        cand = {'fill': fill if fill is not None else ' ', 'flag': flag or '', 'align': align or '<',
+                'width': int(width) if width else None, 'ansi': ansi, 'sf': sf,
+                'zero_led': len(width) > 1 and width[0] == '0'}
+        if best is None or len(sf) > len(best['sf']):
+            best = cand
+    return best
 
 
 def pad_text(t, fill, align, width):
@@ -294,6 +291,26 @@ def drive(ctx, mon, tier, only_case=None):
     sz = tier_sizes(tier)
 
     def body(rng, ex, case):
+        if case == 0:
+            # bounded-exhaustive part: every small-scope value x every padding call / format spec of a fixed battery
+            m = small_scope_on(ctx, tier)
+            nv = 0
+            specs = ['>6', '*^7:blue', '--<6:1', '+>7:34', ':31', '5', '<', '^7', '.-^8:4', ':>6', '+<5:underline;red']
+            for v, _ in small_scope_values(L, m, ctx.shard, ctx.extra.get('nshards', 1),
+                                            cls=L.AnsiStr if ctx.shard % 4 == 1 else None):
+                nv += 1
+                for w in (3, 4, 5, 6, 7):
+                    for meth in ('ljust', 'rjust', 'center'):
+                        if isinstance(v, L.AnsiString):
+                            getattr(v, meth)(w, '*', extend_formatting=True)
+                            getattr(v, meth)(w, '*', extend_formatting=False)
+                        else:
+                            getattr(v, meth)(w, '*')
+                    v.zfill(w)
+                for sp in specs:
+                    format(v, sp)
+            ctx.extra['n_small_scope_values'] = nv
+            return
         history(L, rng, ex, rng.randint(1, sz['nops']), sz['maxlen'], 'mixed' if rng.random() < 0.2 else 'wf', WEIGHTS,
                 esc=rng.random() < 0.12)
         with mon.quiet():
